@@ -410,7 +410,7 @@ Proof.
   split; [|rewrite D3; replace (d - 1 + 1) with d by lia; split; [unfold H'; lia|]].
   2:{ intros Hd1. unfold H'. pose proof (P_le (d - 1) d ltac:(lia)). lia. }
   constructor; rewrite ?D3, ?N3.
-  - lia.
+  - pose proof (sh_depth _ _ _ S) as Dp0. fold d in Dp0. lia.
   - rewrite M3. apply mget_mset_same. reflexivity.
   - apply domH_00. unfold H'. lia.
   - apply (sh_first _ _ _ S).
